@@ -95,6 +95,111 @@ Section Engine.
     verify_from (s_info s) (s_ts s) [] (s_entries s).
 End Engine.
 
+
+(** ------------------------------------------------------------------
+    trust.Verifier with a non-nil Cache.  [notifyTRC] remembers the TRC ids for
+    which Provider.NotifyTRC succeeded ("notify-<id>"); [getChains] remembers the
+    non-empty chain lists under the key (ISD-AS, subject key id, validity) — the
+    key used since fix 7016e47 ("chain-<ia>-<skid>-<not before>-<not after>").
+    Errors and empty results are not cached.  Entries do not expire in the model
+    (sequences of a few verifications, milliseconds). *)
+Definition ckey := (N * bytes * validity)%type.
+Definition ckey_eqb (a b : ckey) : bool :=
+  match a, b with
+  | (ia, sk, (nb, na)), (ia', sk', (nb', na')) =>
+    (ia =? ia') && bytes_eqb sk sk' && (nb =? nb')%Z && (na =? na')%Z
+  end.
+Definition tkey := (N * N * N)%type.
+Definition tkey_eqb (a b : tkey) : bool :=
+  match a, b with (i, b1, s1), (i', b2, s2) => (i =? i') && (b1 =? b2) && (s1 =? s2) end.
+
+Section Cached.
+  Variable PK : Type.
+  Variable sig_valid : PK -> bytes -> bytes -> bool.
+  Variable hash : N -> bytes -> bytes.
+  Variable kind : PK -> N.
+  Variable notify : N -> N -> N -> bool.
+  Variable certs_for : N -> bytes -> validity -> option (list PK).
+
+  Record vcache := mkvc { vc_trc : list tkey; vc_chain : list (ckey * list PK) }.
+  Definition vc_empty : vcache := mkvc [] [].
+
+  (** Verifier.notifyTRC *)
+  Definition notify_cached (c : vcache) (isd base serial : N) : bool * vcache :=
+    if existsb (tkey_eqb (isd, base, serial)) (vc_trc c) then (true, c)
+    else if notify isd base serial then (true, mkvc ((isd, base, serial) :: vc_trc c) (vc_chain c))
+    else (false, c).
+
+  (** Verifier.getChains *)
+  Definition chains_cached (c : vcache) (ia : N) (skid : bytes) (v : validity)
+    : option (list PK) * vcache :=
+    match find (fun p => ckey_eqb (fst p) (ia, skid, v)) (vc_chain c) with
+    | Some p => (Some (snd p), c)
+    | None =>
+      match certs_for ia skid v with
+      | None => (None, c)
+      | Some [] => (Some [], c)
+      | Some keys => (Some keys, mkvc (vc_trc c) (((ia, skid, v), keys) :: vc_chain c))
+      end
+    end.
+
+  Definition trust_verify_cached (c : vcache) (bound : N) (v : validity) (hb sg : bytes)
+             (ad : list bytes) : bool * vcache :=
+    match parse_hb hb with
+    | None => (false, c)
+    | Some (h, _) =>
+      match parse_keyid (h_keyid h) with
+      | None => (false, c)
+      | Some kid =>
+        match k_skid kid with
+        | [] => (false, c)
+        | _ =>
+          if negb (bound =? 0) && negb (bound =? k_ia kid) then (false, c)
+          else if is_wildcard (k_ia kid) then (false, c)
+          else
+            let (nok, c1) := notify_cached c (isd_of (k_ia kid)) (k_base kid) (k_serial kid) in
+            if negb nok then (false, c1)
+            else
+              let (ch, c2) := chains_cached c1 (k_ia kid) (k_skid kid) v in
+              match ch with
+              | None => (false, c2)
+              | Some keys =>
+                (existsb (fun pk => is_ok (verify PK bytes sig_valid hash kind parse_hb
+                                                  (mkmsg hb sg) (Some pk) ad)) keys, c2)
+              end
+        end
+      end
+    end.
+
+  (** VerifySegment stops at the first entry that fails *)
+  Fixpoint verify_from_cached (c : vcache) (info : bytes) (ts : Z) (earlier es : list entry)
+    : bool * vcache :=
+    match es with
+    | [] => (true, c)
+    | e :: t =>
+      let (ok, c1) := trust_verify_cached c (e_local e) (entry_validity ts e) (e_hb e) (e_sig e)
+                                          (assoc info earlier) in
+      if ok then verify_from_cached c1 info ts (earlier ++ [e]) t else (false, c1)
+    end.
+
+  Definition verify_segment_cached (c : vcache) (s : segment) : bool * vcache :=
+    verify_from_cached c (s_info s) (s_ts s) [] (s_entries s).
+
+  (** a sequence of verifications on one verifier *)
+  Fixpoint verify_segments_cached (c : vcache) (ss : list segment) : list bool * vcache :=
+    match ss with
+    | [] => ([], c)
+    | s :: t =>
+      let (r, c1) := verify_segment_cached c s in
+      let (rs, c2) := verify_segments_cached c1 t in
+      (r :: rs, c2)
+    end.
+End Cached.
+Arguments vc_trc {PK} _.
+Arguments vc_chain {PK} _.
+Arguments mkvc {PK} _ _.
+Arguments vc_empty {PK}.
+
 (** ------------------------------------------------------------------
     What SegmentFromPB derives from the raw bytes (only the fields that
     VerifySegment reads). *)
@@ -205,6 +310,28 @@ Inductive case :=
     so it is reported verified exactly when VerifySegment returns nil. *)
 | CUnit (pki : list cert) (trcs : list trc) (mode : N) (st : step) (unit_ok : bool).
 
+(** the steps of a case on one cached verifier (the crypto table changes per step,
+    the cache does not depend on it) *)
+Fixpoint verify_steps_cached_c (pki : list cert) (trcs : list trc) (c : @vcache key) (steps : list step)
+  : list bool :=
+  match steps with
+  | [] => []
+  | st :: t =>
+    let (r, c1) := verify_segment_cached key (sig_valid_c (st_tbl st)) hash_c kind_c (notify_c trcs)
+                                         (certs_for_c pki) c (st_seg st) in
+    r :: verify_steps_cached_c pki trcs c1 t
+  end.
+
+(** the model's verdicts for a sequence: through the cache model when the case ran
+    with Verifier.Cache, directly otherwise *)
+Definition model_verdicts (pki : list cert) (trcs : list trc) (cache : bool) (steps : list step) : list bool :=
+  if cache then verify_steps_cached_c pki trcs vc_empty steps
+  else map (fun st => verify_segment_c pki trcs (st_tbl st) (st_seg st)) steps.
+
+Definition seq_agree (pki : list cert) (trcs : list trc) (cache : bool) (steps : list step) : bool :=
+  list_eqb Bool.eqb (model_verdicts pki trcs cache steps) (map st_impl steps)
+  && forallb (fun st => negb (st_frompb st) || consistent (st_seg st)) steps.
+
 Definition step_agree (pki : list cert) (trcs : list trc) (st : step) : bool :=
   Bool.eqb (verify_segment_c pki trcs (st_tbl st) (st_seg st)) (st_impl st)
   && (negb (st_frompb st) || consistent (st_seg st)).
@@ -221,8 +348,8 @@ Definition unit_oracle (pki : list cert) (trcs : list trc) (st : step) (unit_ok 
 
 Definition check (c : case) : N :=
   match c with
-  | CSeq pki trcs _ steps =>
-    Check.verdict (forallb (step_agree pki trcs) steps) (forallb (step_oracle pki trcs) steps)
+  | CSeq pki trcs cache steps =>
+    Check.verdict (seq_agree pki trcs cache steps) (forallb (step_oracle pki trcs) steps)
   | CUnit pki trcs _ st unit_ok =>
     Check.verdict (step_agree pki trcs st
                    && Bool.eqb (verify_segment_c pki trcs (st_tbl st) (st_seg st)) unit_ok)
